@@ -2,6 +2,9 @@ import OrdModel.Proofs.Views
 import OrdModel.Proofs.ViewsLocated
 import OrdModel.Proofs.ViewsFixes
 import OrdModel.Generated.ViewsFixes
+import OrdModel.Proofs.IndexLiftDischargeC18
+import OrdModel.Theorems.C04
+import OrdModel.Theorems.C08
 /-!
 # C18 — explorer JSON and recursive endpoints agree with the index
 
@@ -85,6 +88,126 @@ theorem c18_output_indexed_and_node_fields (cfg : Cfg) (st : State) (op : OutPoi
     v.indexed = (AL.get st.utxo op).isSome ∧ v.satRanges = listRanges cfg st op ∧
       ∃ n, node = some n ∧ v.value = n.value ∧ v.script = n.script ∧ v.spent = !n.unspent :=
   outputView_indexed cfg st op node v hs h
+
+/-! ## Output view on every reachable state
+
+The two output-view clauses with their hypotheses discharged: C04's invariant is proved for every
+reachable state of a chain satisfying `InsLift.InsChain` (`Insloc.c04_reachable`,
+`Insloc.c04_reachable_tables`) and C08's for `RuneLift.SupplyChainOK` (`C08.c08_chain_conserved`);
+`Valid.validChain` (C16's predicate) implies both. -/
+
+/-- `Located` holds in the state after every chain satisfying C04's chain hypotheses. -/
+theorem c18_located_reachable (cfg : Cfg) (chain : List Block) (st : State) (evs : List Event)
+    (hc : InsLift.InsChain chain) (h : run cfg chain = .ok (st, evs)) : Located st :=
+  c18_located_of_c04_invariant cfg st (Insloc.c04_reachable cfg chain st evs hc h)
+    (Insloc.c04_reachable_tables cfg chain st evs hc h).1
+
+/-- … so there an output view lists exactly the inscriptions located in the output (chain
+hypotheses only: distinct non-zero txids, no special-outpoint spend outside a block's first
+transaction, coinbase-first blocks, non-decreasing heights). -/
+theorem c18_output_lists_located_insChain (cfg : Cfg) (chain : List Block) (st : State) (evs : List Event)
+    (hc : InsLift.InsChain chain) (hrun : run cfg chain = .ok (st, evs))
+    (op : OutPoint) (node : Option NodeOut) (v : OutView) (hins : cfg.indexInscriptions = true)
+    (h : outputView cfg st op node = .ok v) :
+    ∃ ids, v.inscriptions = some ids ∧
+      ∀ id, id ∈ ids ↔ ∃ seq sp, AL.get st.seq2sp seq = some sp ∧ sp.outpoint = op ∧ idOfSeq st seq = some id :=
+  c18_output_lists_located cfg st op node v hins (c18_located_reachable cfg chain st evs hc hrun) h
+
+/-- **"An output lists exactly the inscriptions it holds", for every reachable state of a valid
+chain**: after indexing any consensus-valid chain (`Valid.validChain`), `GET /output/<outpoint>`
+lists exactly the inscriptions whose stored satpoint is in that output.  No hypothesis on the
+state. -/
+theorem c18_output_lists_located_reachable (cfg : Cfg) (chain : List Block) (st : State) (evs : List Event)
+    (hv : Valid.validChain chain = true) (hrun : run cfg chain = .ok (st, evs))
+    (op : OutPoint) (node : Option NodeOut) (v : OutView) (hins : cfg.indexInscriptions = true)
+    (h : outputView cfg st op node = .ok v) :
+    ∃ ids, v.inscriptions = some ids ∧
+      ∀ id, id ∈ ids ↔ ∃ seq sp, AL.get st.seq2sp seq = some sp ∧ sp.outpoint = op ∧ idOfSeq st seq = some id :=
+  c18_output_lists_located_insChain cfg chain st evs (InsLift.insChain_of_validChain chain hv).1 hrun op node v hins h
+
+/-- The rune clause under C08's chain-level invariant (`RuneLift.SupplyChainOK`: consecutive
+blocks from height 0, ≤ 2^32 transactions each, no repeated txid): the view lists exactly the
+stored balance rows, *every* stored row is shown (its rune entry exists — no row is dropped and
+the handler's `unwrap` cannot fire), every listed amount is positive, and an OP_RETURN output of
+the chain lists nothing.  By C08 these rows are what the outputs hold: for every rune their sum
+over all outputs plus the burned amount is premine + mints · amount. -/
+theorem c18_output_lists_held_balances_supplyChain (cfg : Cfg) (chain : List Block) (st : State) (evs : List Event)
+    (hc : RuneLift.SupplyChainOK chain) (hrun : run cfg chain = .ok (st, evs))
+    (op : OutPoint) (node : Option NodeOut) (v : OutView) (hr : cfg.indexRunes = true)
+    (h : outputView cfg st op node = .ok v) :
+    ∃ ps, v.runes = some ps ∧
+      (∀ p, p ∈ ps ↔ ∃ rows id amount e, AL.get st.balances op = some rows ∧ (id, amount) ∈ rows ∧
+        AL.get st.runeEntries id = some e ∧ p = ⟨(e.rune, e.spacers), amount, e.divisibility, e.symbol⟩) ∧
+      (∀ rows id amount, AL.get st.balances op = some rows → (id, amount) ∈ rows →
+        0 < amount ∧ ∃ e, AL.get st.runeEntries id = some e ∧
+          (⟨(e.rune, e.spacers), amount, e.divisibility, e.symbol⟩ : Pile) ∈ ps) ∧
+      (C08.chainOpret chain op = true → ps = []) := by
+  obtain ⟨ps, hps, hmem⟩ := c18_output_lists_balance_rows cfg st op node v hr h
+  obtain ⟨_, hrows⟩ := C08.c08_chain_conserved cfg chain st evs hrun hc
+  refine ⟨ps, hps, hmem, ?_, ?_⟩
+  · intro rows id amount hg hin
+    obtain ⟨h1, _, _⟩ := hrows op rows (AL.mem_of_get hg)
+    obtain ⟨hpos, hne⟩ := h1 id amount hin
+    cases he : AL.get st.runeEntries id with
+    | none => exact absurd he hne
+    | some e => exact ⟨hpos, e, rfl, (hmem _).2 ⟨rows, id, amount, e, hg, hin, he, rfl⟩⟩
+  · intro hop
+    apply List.eq_nil_iff_forall_not_mem.2
+    intro p hp
+    obtain ⟨rows, _, _, _, hg, _⟩ := (hmem p).1 hp
+    have := (hrows op rows (AL.mem_of_get hg)).2.2
+    rw [hop] at this; cases this
+
+/-- **"An output lists exactly the rune balances it holds", for every reachable state of a valid
+chain.** -/
+theorem c18_output_lists_held_balances_reachable (cfg : Cfg) (chain : List Block) (st : State) (evs : List Event)
+    (hv : Valid.validChain chain = true) (hrun : run cfg chain = .ok (st, evs))
+    (op : OutPoint) (node : Option NodeOut) (v : OutView) (hr : cfg.indexRunes = true)
+    (h : outputView cfg st op node = .ok v) :
+    ∃ ps, v.runes = some ps ∧
+      (∀ p, p ∈ ps ↔ ∃ rows id amount e, AL.get st.balances op = some rows ∧ (id, amount) ∈ rows ∧
+        AL.get st.runeEntries id = some e ∧ p = ⟨(e.rune, e.spacers), amount, e.divisibility, e.symbol⟩) ∧
+      (∀ rows id amount, AL.get st.balances op = some rows → (id, amount) ∈ rows →
+        0 < amount ∧ ∃ e, AL.get st.runeEntries id = some e ∧
+          (⟨(e.rune, e.spacers), amount, e.divisibility, e.symbol⟩ : Pile) ∈ ps) ∧
+      (C08.chainOpret chain op = true → ps = []) :=
+  c18_output_lists_held_balances_supplyChain cfg chain st evs (validChain_lotChainOK chain hv).ok hrun op node v hr h
+
+/-- In every reachable state of a valid chain the output view never hits one of its `unwrap`s
+(`entry.unwrap()` on a listed sequence number, `id_to_entry.get(id).unwrap()` on a balance row):
+the handler answers 200 or 404, never drops the connection. -/
+theorem c18_output_view_no_unwrap_reachable (cfg : Cfg) (chain : List Block) (st : State) (evs : List Event)
+    (hv : Valid.validChain chain = true) (hrun : run cfg chain = .ok (st, evs))
+    (op : OutPoint) (node : Option NodeOut) (s : String) : outputView cfg st op node ≠ .panic s := by
+  have hpart := Insloc.c04_reachable cfg chain st evs (InsLift.insChain_of_validChain chain hv).1 hrun
+  obtain ⟨_, hrows⟩ := C08.c08_chain_conserved cfg chain st evs hrun (validChain_lotChainOK chain hv).ok
+  obtain ⟨l, hl⟩ := insOnOutput_isSome cfg st hpart op
+  obtain ⟨ps, hps⟩ := runeBalances_isSome st op (fun rows hg id b hin =>
+    ((hrows op rows (AL.mem_of_get hg)).1 id b hin).2)
+  have h1 : ∃ a, insForOutput cfg st op = some a := by
+    unfold insForOutput; split
+    · exact ⟨_, by rw [hl]; rfl⟩
+    · exact ⟨_, rfl⟩
+  have h2 : ∃ a, runesForOutput cfg st op = some a := by
+    unfold runesForOutput; split
+    · exact ⟨_, by rw [hps]; rfl⟩
+    · exact ⟨_, rfl⟩
+  obtain ⟨a1, h1⟩ := h1
+  obtain ⟨a2, h2⟩ := h2
+  unfold outputView
+  simp only [h1, h2]
+  split <;> simp
+
+/-- non-vacuity of the reachable-state theorems: C04's example chain (an inscription revealed,
+moved and lost) is `validChain` and is indexed successfully; C08's example chain (a rune etched with
+a premine, minted, partly sent to an OP_RETURN output) satisfies `SupplyChainOK`, is indexed
+successfully and leaves one balance row and one OP_RETURN output of the chain. -/
+example : Valid.validChain Insloc.lcChain = true ∧ (run Insloc.lcCfg Insloc.lcChain).isOk = true ∧
+    Insloc.lcCfg.indexInscriptions = true := ⟨by decide, by decide, rfl⟩
+
+example : (match run ⟨false, false, false, false, true, 0, 0, 0⟩ C08.exChain with
+    | .ok (st, _) => st.balances
+    | _ => []) = [(⟨2, 1⟩, [(⟨1, 0⟩, 77)])] ∧ C08.chainOpret C08.exChain ⟨2, 0⟩ = true := ⟨by decide, by decide⟩
 
 /-! ## Inscription view -/
 
